@@ -14,6 +14,10 @@ PIPE_RULE = ("pipeline stream: generated single-asset histories (2-14 rows, 4 ac
              "optional exchange-supplied fiat columns, 1-3-entry schedules, random from/to windows on/around transaction dates, -n on/off, a share of mixed UTC offsets, "
              "4% over-spending); every figure compared with the Lean model as an exact rational; non-trivial = succeeds with >= 2 fractions; distinct by content hash")
 
+REP_RULE = ("reports stream: 1-3 assets (colliding row numbers, rows not time-sorted, mixed offsets, all transaction types), random from/to windows, one of the "
+            "five generators per case run in a forked child, output read back with an independent zipfile+ElementTree ODS reader and compared row by row with the "
+            "Lean abstract-report model; non-trivial = report generated with >= 3 data rows; distinct by content hash")
+
 PROPS = {
     "C01": {"streams": [S("engine", 2000, 160000, ["fractions"])], "rule": ENGINE_RULE,
             "assumptions": ["hypothesis SameInstantSameYear (finding F7): events at one instant share a local year"],
@@ -63,6 +67,27 @@ PROPS = {
             "technique": "Lean 4 proof: a window view is the filter by [from,to] under monotone local dates; correspondence of ComputedData for random windows",
             "text": "Theorem view_is_filter; filtered ComputedData compared with the model; oracle compares filtered run with the filter of the unfiltered run on the real code.",
             "design_ref": "DESIGN.md §3 C10"},
+    "C13": {"streams": [S("reports", 60, 3000, ["inout", "taxsheet", "detail", "summary", "status"])], "rule": REP_RULE, "assumptions": [],
+            "technique": "Lean 4 proof: every fraction numbered once in order, k/n labels = position among the event's fractions; correspondence of the abstract full report (all tables, cell values as doubles)",
+            "text": "Theorems fractions_once_in_order, event_labels, rows_once on the model's numberFractions; rp2_full_report.ods read back and compared cell by cell with the Lean full-report model; oracle compares rows with ComputedData.",
+            "design_ref": "DESIGN.md §3 C13"},
+    "C14": {"streams": [S("reports", 60, 3000, ["taxreport", "sheets", "status"])], "rule": REP_RULE, "assumptions": [],
+            "technique": "Lean 4 proof: routing with one row counter per sheet never reuses a (sheet,row) and puts each fraction on its type's sheet; regenerated sheet maps; correspondence of abstract sheets",
+            "text": "Theorem each_fraction_one_row_no_overwrite + sheet-map table theorems; tax_report_us/ie files read back and compared row by row with the Lean model; routing oracle.",
+            "design_ref": "DESIGN.md §3 C14"},
+    "C15": {"streams": [S("reports", 60, 3000, ["open", "status"])], "rule": REP_RULE + "; C15: no from-date", "assumptions": ["runs without a from-date (as the property states)"],
+            "technique": "Lean 4 proof (exact arithmetic): realized + unrealized = acquired per lot and in total, weights add to 1, unit cost distributes; correspondence of the open-positions rows",
+            "text": "Theorems realized_plus_unrealized_is_acquired, weights_add_to_one, unit_cost_is_cost_over_balance; open_positions.ods compared row by row with the Lean model; conservation oracle on the real output.",
+            "design_ref": "DESIGN.md §3 C15"},
+    "C19": {"streams": [S("reports", 60, 3000, ["links", "inout", "status"])], "rule": REP_RULE, "assumptions": [],
+            "technique": "Lean 4 proof: with a per-asset row dictionary every shown transaction links to the row it was written at, hidden ones carry no link; correspondence of link targets",
+            "text": "Theorem links_lead_to_own_row; hyperlink targets of the real rp2_full_report.ods parsed and compared with the model; oracle follows each link in the real file.",
+            "design_ref": "DESIGN.md §3 C19"},
+    "C20": {"streams": [S("reports", 60, 3000, ["jp", "status"])], "rule": REP_RULE + "; C20: sparse years, years first met in OUT/INTRA tables",
+            "assumptions": ["hypothesis FeeFiatVisible (finding F13): every fee-bearing transfer has a yen fee value that does not vanish at 13 decimals"],
+            "technique": "Lean 4 proof on the JP report model: sheets = years with transactions, ascending, each once; opening balance chained to the previous existing year sheet; correspondence of sheets/rows/references",
+            "text": "Theorem sheets_and_chain (jpAsset_spec) for every input; tax_report_jp.ods sheet names, rows and cross-sheet references compared with the Lean model; chain oracle on the real file.",
+            "design_ref": "DESIGN.md §3 C20"},
 }
 
 PENDING = {}
